@@ -19,16 +19,32 @@ import (
 
 func (w *world) cmpOutputs(nd *node, what string, err1, err2 error, dec1, dec2 bool, val1, val2 []byte, agg1, agg2 *specqbft.SignedMessage) {
 	d := w.d
+	if nd.uncompared {
+		nd.shadowNet.out = nil
+		return
+	}
+	report := d.Violate
+	if nd.decidedCompacted {
+		// Known class (see known_findings.json): compaction of a decided instance clears containers
+		// that are still counted. The divergence is recorded as a finding, this operator's pair is
+		// not compared any further (the operator itself keeps running), all others still are.
+		what += "+decided-compacted"
+		report = func(inv, sig, format string, a ...any) {
+			d.Finding(inv, sig, format, a...)
+			nd.uncompared = true
+			nd.shadowNet.out = nil
+		}
+	}
 	if (err1 == nil) != (err2 == nil) {
-		d.Violate("refinement-accept-mismatch", what, "op%d %s: node err=%v, reference err=%v", nd.id, what, err1, err2)
+		report("refinement-accept-mismatch", what, "op%d %s: node err=%v, reference err=%v", nd.id, what, err1, err2)
 		return
 	}
 	if dec1 != dec2 || !bytes.Equal(val1, val2) {
-		d.Violate("refinement-decision-mismatch", what, "op%d %s: node decided=%v/%s, reference decided=%v/%s", nd.id, what, dec1, valueName(w, val1), dec2, valueName(w, val2))
+		report("refinement-decision-mismatch", what, "op%d %s: node decided=%v/%s, reference decided=%v/%s", nd.id, what, dec1, valueName(w, val1), dec2, valueName(w, val2))
 		return
 	}
 	if (agg1 == nil) != (agg2 == nil) {
-		d.Violate("refinement-decision-mismatch", what, "op%d %s: aggregated commit present node=%v reference=%v", nd.id, what, agg1 != nil, agg2 != nil)
+		report("refinement-decision-mismatch", what, "op%d %s: aggregated commit present node=%v reference=%v", nd.id, what, agg1 != nil, agg2 != nil)
 		return
 	}
 	if agg1 != nil {
@@ -41,13 +57,13 @@ func (w *world) cmpOutputs(nd *node, what string, err1, err2 error, dec1, dec2 b
 		b1, _ := c1.Encode()
 		b2, _ := c2.Encode()
 		if !bytes.Equal(b1, b2) {
-			d.Violate("refinement-decision-mismatch", what, "op%d %s: aggregated commit differs (node signers %v, reference signers %v)", nd.id, what, agg1.Signers, agg2.Signers)
+			report("refinement-decision-mismatch", what, "op%d %s: aggregated commit differs (node signers %v, reference signers %v)", nd.id, what, agg1.Signers, agg2.Signers)
 			return
 		}
 	}
 	// broadcasts
 	if len(nd.net.out) != len(nd.shadowNet.out) {
-		d.Violate("refinement-broadcast-mismatch", what, "op%d %s: node broadcast %d message(s), reference %d", nd.id, what, len(nd.net.out), len(nd.shadowNet.out))
+		report("refinement-broadcast-mismatch", what, "op%d %s: node broadcast %d message(s), reference %d", nd.id, what, len(nd.net.out), len(nd.shadowNet.out))
 		return
 	}
 	for i := range nd.net.out {
@@ -55,14 +71,14 @@ func (w *world) cmpOutputs(nd *node, what string, err1, err2 error, dec1, dec2 b
 			a, b := &specqbft.SignedMessage{}, &specqbft.SignedMessage{}
 			_ = a.Decode(nd.net.out[i].Data)
 			_ = b.Decode(nd.shadowNet.out[i].Data)
-			d.Violate("refinement-broadcast-mismatch", what, "op%d %s: broadcast %d differs: node %s, reference %s", nd.id, what, i, describe(w, a), describe(w, b))
+			report("refinement-broadcast-mismatch", what, "op%d %s: broadcast %d differs: node %s, reference %s", nd.id, what, i, describe(w, a), describe(w, b))
 			return
 		}
 	}
 	nd.shadowNet.out = nil
 	// timer arming
 	if fmt.Sprint(nd.timer.armed) != fmt.Sprint(nd.shadowTimer.armed) {
-		d.Violate("refinement-timer-mismatch", what, "op%d %s: node armed rounds %v, reference %v", nd.id, what, nd.timer.armed, nd.shadowTimer.armed)
+		report("refinement-timer-mismatch", what, "op%d %s: node armed rounds %v, reference %v", nd.id, what, nd.timer.armed, nd.shadowTimer.armed)
 		return
 	}
 	// protocol state
@@ -76,14 +92,14 @@ func (w *world) cmpOutputs(nd *node, what string, err1, err2 error, dec1, dec2 b
 		return fmt.Sprintf("round=%d height=%d lpr=%d lpv=%s proposal=%s decided=%v value=%s", s.Round, s.Height, s.LastPreparedRound, valueName(w, s.LastPreparedValue), p, s.Decided, valueName(w, s.DecidedValue))
 	}
 	if proj(s1) != proj(s2) {
-		d.Violate("refinement-state-mismatch", what, "op%d %s: node state {%s}, reference state {%s}", nd.id, what, proj(s1), proj(s2))
+		report("refinement-state-mismatch", what, "op%d %s: node state {%s}, reference state {%s}", nd.id, what, proj(s1), proj(s2))
 		return
 	}
 	if !nd.compactOn {
 		r1, e1 := s1.GetRoot()
 		r2, e2 := s2.GetRoot()
 		if e1 != nil || e2 != nil || r1 != r2 {
-			d.Violate("refinement-state-mismatch", "root", "op%d %s: state roots differ (node %x, reference %x) although all outputs agreed", nd.id, what, r1[:4], r2[:4])
+			report("refinement-state-mismatch", "root", "op%d %s: state roots differ (node %x, reference %x) although all outputs agreed", nd.id, what, r1[:4], r2[:4])
 		}
 	}
 }
@@ -155,6 +171,7 @@ func (w *world) deliverPair(raw []byte, desc string, id int, to *node) {
 		w.d.Fault("compaction")
 		if to.inst.State.Decided {
 			w.d.Probe("compaction-after-decided")
+			to.decidedCompacted = true
 		}
 	}
 	w.collect(to)
